@@ -34,7 +34,7 @@ use sim::rng::Rng;
 use sim::runner::{Stats, Tier, World, main_for};
 use sim::trace::{Op, Trace, Violation};
 
-pub const OP_NAMES: &[&str] = &["alloc", "slice", "grow", "shrink", "dealloc", "reserve", "prep", "enter", "exit", "reset_to", "checkpoint", "str", "try_with"];
+pub const OP_NAMES: &[&str] = &["alloc", "slice", "grow", "shrink", "dealloc", "reserve", "prep", "enter", "exit", "reset_to", "checkpoint", "str", "try_with", "zst"];
 pub const K_ALLOC: u16 = 0;
 pub const K_SLICE: u16 = 1;
 pub const K_GROW: u16 = 2;
@@ -48,6 +48,7 @@ pub const K_RESET_TO: u16 = 9;
 pub const K_CHECKPOINT: u16 = 10;
 pub const K_STR: u16 = 11;
 pub const K_TRY_WITH: u16 = 12;
+pub const K_ZST: u16 = 13;
 
 pub const N_SETTINGS: u64 = 12;
 
@@ -70,7 +71,7 @@ impl World for LockWorld {
         t.set_param("policy", rc.below(5));
         t.set_param("heap_seed", rc.next() >> 16);
         t.set_param("init", rc.below(3));
-        let w: &[(u16, u32)] = &[(K_ALLOC, 22), (K_SLICE, 16), (K_GROW, 8), (K_SHRINK, 6), (K_DEALLOC, 8), (K_RESERVE, 3), (K_PREP, 4), (K_ENTER, 4), (K_EXIT, 4), (K_CHECKPOINT, 2), (K_RESET_TO, 2), (K_STR, 4), (K_TRY_WITH, 6)];
+        let w: &[(u16, u32)] = &[(K_ALLOC, 22), (K_SLICE, 16), (K_GROW, 8), (K_SHRINK, 6), (K_DEALLOC, 8), (K_RESERVE, 3), (K_PREP, 4), (K_ENTER, 4), (K_EXIT, 4), (K_CHECKPOINT, 2), (K_RESET_TO, 2), (K_STR, 4), (K_TRY_WITH, 6), (K_ZST, 4)];
         let weights: Vec<u32> = (0..OP_NAMES.len() as u16).map(|k| w.iter().find(|x| x.0 == k).map_or(0, |x| x.1)).collect();
         let n = 4 + r.below(if tier == Tier::Quick { 50 } else { 100 });
         for _ in 0..n {
